@@ -401,12 +401,23 @@ struct Ctx {
     next_a: u64,
 }
 
-fn pick_id(g: &mut Gen, info: &[ResInfo], r: usize) -> Id {
-    if g.chance(1, 12) {
-        let other = (r + 1 + g.index(3)) % 4;
-        return g.pick(&info[other].pool).clone();
+fn pick_id(g: &mut Gen, info: &[ResInfo], r: usize, m: &Model) -> Id {
+    match g.weighted(&[8, 3, 1]) {
+        0 => g.pick(&info[r].pool).clone(),
+        1 => {
+            // an id that was burned (in an earlier transaction or in this one), if there is one
+            let burned: Vec<&Id> = m.res[r].ever.iter().filter(|id| !m.res[r].live.contains_key(*id)).collect();
+            if burned.is_empty() {
+                g.pick(&info[r].pool).clone()
+            } else {
+                (*g.pick(&burned)).clone()
+            }
+        }
+        _ => {
+            let other = (r + 1 + g.index(3)) % 4;
+            g.pick(&info[other].pool).clone()
+        }
     }
-    g.pick(&info[r].pool).clone()
 }
 
 fn gen_data(g: &mut Gen, cx: &mut Ctx) -> NfData {
@@ -424,15 +435,15 @@ fn gen_op(g: &mut Gen, cx: &mut Ctx, t: &Tentative, primary: usize) -> Op {
     let r = if g.chance(1, 8) { g.index(4) } else { primary };
     let is_ruid = cx.info[r].id_type == NonFungibleIdType::RUID;
     // simplest first: a read-only query
-    let kind = g.weighted(&[2, 2, if is_ruid { 2 } else { 7 }, 6, 6, if is_ruid { 5 } else { 1 }, if is_ruid { 3 } else { 1 }, 1, 1]);
+    let kind = g.weighted(&[2, 2, if is_ruid { 2 } else { 7 }, 6, 6, if is_ruid { 5 } else { 1 }, if is_ruid { 3 } else { 0 }, 1, 1]);
     match kind {
-        0 => Op::Exists { r, id: pick_id(g, &cx.info, r) },
-        1 => Op::Get { r, id: pick_id(g, &cx.info, r) },
+        0 => Op::Exists { r, id: pick_id(g, &cx.info, r, &t.m) },
+        1 => Op::Get { r, id: pick_id(g, &cx.info, r, &t.m) },
         2 => {
             let n = 1 + g.weighted(&[6, 2, 1]);
             let mut entries: Vec<(Id, NfData)> = Vec::new();
             for _ in 0..n {
-                let id = pick_id(g, &cx.info, r);
+                let id = pick_id(g, &cx.info, r, &t.m);
                 if entries.iter().any(|(e, _)| *e == id) {
                     continue;
                 }
@@ -449,7 +460,7 @@ fn gen_op(g: &mut Gen, cx: &mut Ctx, t: &Tentative, primary: usize) -> Op {
                 cands = res.live.keys().collect();
             }
             if cands.is_empty() {
-                return Op::Exists { r, id: pick_id(g, &cx.info, r) };
+                return Op::Exists { r, id: pick_id(g, &cx.info, r, &t.m) };
             }
             let id = (*g.pick(&cands)).clone();
             let holder = res.live[&id].1;
@@ -459,7 +470,7 @@ fn gen_op(g: &mut Gen, cx: &mut Ctx, t: &Tentative, primary: usize) -> Op {
             }
         }
         4 => {
-            let id = pick_id(g, &cx.info, r);
+            let id = pick_id(g, &cx.info, r, &t.m);
             let (field, val) = match g.weighted(&[4, 4, 4, 1]) {
                 0 => ("b", Val::S(g.pick(&["", "updated", "another value \u{1F600}"]).to_string())),
                 1 => ("c", Val::U(*g.pick(&[0u64, 1, 77, u64::MAX]))),
@@ -479,7 +490,7 @@ fn gen_op(g: &mut Gen, cx: &mut Ctx, t: &Tentative, primary: usize) -> Op {
             if something_on_worktop {
                 Op::BurnWorktop { r }
             } else {
-                Op::Exists { r, id: pick_id(g, &cx.info, r) }
+                Op::Exists { r, id: pick_id(g, &cx.info, r, &t.m) }
             }
         }
         _ => Op::DropProofs,
